@@ -79,6 +79,10 @@ def cases(tier, seed):
                     for tkind in ("cas", "dsk"):
                         yield {"k": "conv", "skind": "cas", "files": fset, "tkind": tkind, "sel": None, "mode": None, "absent": False, "gaps": 3}
                         # a source tape whose data blocks are shorter than 255 bytes (legal: any block may carry 1..255 bytes)
+                        # names padded with $00 instead of blanks in the name-file block (as some PC-side tape tools write them)
+                        yield {"k": "conv", "skind": "cas", "files": fset, "tkind": tkind, "sel": None, "mode": None, "absent": False, "nulpad": True}
+                        for mode in ("upper", "lower"):
+                            yield {"k": "conv", "skind": "cas", "files": fset, "tkind": tkind, "sel": [fset[0]], "mode": mode, "absent": False, "nulpad": True}
                         for chunk in (128, 7):
                             yield {"k": "conv", "skind": "cas", "files": fset, "tkind": tkind, "sel": None, "mode": None, "absent": False, "chunk": chunk}
             if len(fset) in (1, 2):
@@ -89,10 +93,10 @@ def cases(tier, seed):
 HOLE_SLOTS = [1, 3, 4, 7, 9]
 
 
-def write_source(path, kind, fset, gaps=None, holes=False, chunk=255):
+def write_source(path, kind, fset, gaps=None, holes=False, chunk=255, nulpad=False):
     specs = [FILES[i] for i in fset]
     if kind == "cas":
-        b = tape.write([dict(name=s["name"], type=s["type"], dtype=s["dtype"], load=s["load"], exec=s["exec"], data=C.pattern(s["n"], s["pat"])) for s in specs],
+        b = tape.write([dict(name=s["name"] if not nulpad else s["name"][:8].ljust(8, "\0"), type=s["type"], dtype=s["dtype"], load=s["load"], exec=s["exec"], data=C.pattern(s["n"], s["pat"])) for s in specs],
                        gap=gaps, chunk=chunk)
     else:
         fl = []
@@ -146,7 +150,7 @@ def check_case(case):
     names = ",".join(FILES[i]["name"] for i in case["files"]) or "none"
     if case["k"] == "conv":
         sel = "all" if case["sel"] is None else (",".join(FILES[i]["name"] for i in case["sel"]) + ("+absent" if case["absent"] else "")) or "absent-only"
-        cell = "conv|{}{}>{}|{}|sel={}|{}".format(case["skind"], ".gaps" if case.get("gaps") else ".holes" if case.get("holes") else ".chunk{}".format(case["chunk"]) if case.get("chunk") else "", case["tkind"], names, sel, case["mode"] or "-")
+        cell = "conv|{}{}>{}|{}|sel={}|{}".format(case["skind"], ".gaps" if case.get("gaps") else ".holes" if case.get("holes") else ".chunk{}".format(case["chunk"]) if case.get("chunk") else ".nulpad" if case.get("nulpad") else "", case["tkind"], names, sel, case["mode"] or "-")
     elif case["k"] == "chain":
         cell = "chain|{}|{}".format(case["skind"], names)
     else:
@@ -160,7 +164,7 @@ def check_case(case):
     try:
         os.chdir(td)
         src = "src." + case["skind"]
-        specs = write_source(src, case["skind"], case["files"], case.get("gaps"), case.get("holes", False), case.get("chunk", 255))
+        specs = write_source(src, case["skind"], case["files"], case.get("gaps"), case.get("holes", False), case.get("chunk", 255), case.get("nulpad", False))
         if case["k"] == "conv":
             tgt = "tgt." + case["tkind"]
             files_arg = None
@@ -227,7 +231,7 @@ def describe(tier):
     return {
         "alphabet": "source images written by the independent writers (cassette and disk) holding every subset of size <= 2 (" +
                     ("and every subset of size 3" if tier == "thorough" else "4 subsets of size 3") + ") of {} plus two reordered sets and four sets on which one name occurs twice; target kind cas/dsk; "
-                    "disk sources on descending and track-17-crossing chains, and with KILLed / never-used directory entries before and between the files; cassette sources recorded with gaps (gap flag $FF) and with 128- and 7-byte data blocks; "
+                    "disk sources on descending and track-17-crossing chains, and with KILLed / never-used directory entries before and between the files; cassette sources recorded with gaps (gap flag $FF) and with 128- and 7-byte data blocks, and with names padded with $00; "
                     "--files = every non-empty subset of the names in upper/lower/mixed case, with an absent name, and only an absent name; chains "
                     "cas>dsk>cas and dsk>cas>dsk; --to_bin on 1- and 2-file sources".format([C.brief(f) for f in FILES]),
         "bound": "single conversions and chains of two",
